@@ -803,5 +803,6 @@ func extractC02() *lean {
 	}
 	l.def("pkceMethods", "List String", leanStrList(methods), methods)
 	c02JarFacts(l)
+	c02DpopFacts(l, consts, ttlOf)
 	return l
 }
